@@ -349,7 +349,7 @@ def run(ctx):
         'ShaderStages values are unions of VERTEX|FRAGMENT|COMPUTE (bits < 8)',
     ]
     ctx.bounds = {'helpers': '2 void + 2 value-returning (quick), 3+3 (thorough)', 'entries': '2 (quick) / 3 (thorough)',
-                  'globals': len(GLOBALS), 'nesting contexts': CONTEXTS,
+                  'globals': len(GLOBALS), 'nesting contexts': CONTEXTS, 'multi-use family': '3 globals; 5 / 3 / 2 references per function, each symbolic over the globals (one function per run)',
                   'symbolic slots per run': '3-4 (quick), 5-6 (thorough)'}
     nh = 2 if quick else 3
     ne = 2 if quick else 3
@@ -363,24 +363,8 @@ def run(ctx):
     if not quick:
         plans += [(a, b) for a, b in itertools.combinations(CONTEXTS, 2)][:: 9]
     sequences(ctx, nh, ne, seen)
-    for cx, cx2 in plans:
-        tpl = Template(nh, [1, 2, 0][:ne], CONTEXTS)
-        e0 = tpl.entries[0]
-        hv_top = [f for f in tpl.funcs if f['kind'] == 'v'][-1]
-        hv_low = [f for f in tpl.funcs if f['kind'] == 'v'][0]
-        hr_top = [f for f in tpl.funcs if f['kind'] == 'r'][-1]
-        # concrete part: the other entry uses u0 directly; the lowest helpers use something fixed
-        tpl.entries[1]['slots']['use'].value = 'u0'
-        sym = [e0['ctx'][cx], hv_top['slots']['use'], hv_top['slots']['callv'], hv_low['slots']['use']]
-        if cx2:
-            sym.append(e0['ctx'][cx2])
-        if not quick:
-            sym += [hv_top['slots']['callr'], hr_top['slots']['use']]
-        module, info = build(ctx, tpl, sym, [])
-        label = f'global_shader_stages/{cx}{"+" + cx2 if cx2 else ""}'
-        res = ctx.explore(label, lambda it: it.call('global_shader_stages', [mkref(module)]), assume=info['assume'],
-                          anchors=['global_shader_stages', 'update_stages', 'update_stages_blocks', 'naga_stages'])
-        check_stage_map(ctx, label, tpl, info, res, seen)
+    multi_use(ctx, seen)
+    contexts(ctx, nh, ne, seen, plans)
     # value-returning calls inside expressions + symbolic entry stages
     tpl = Template(nh, [1, 2, 0][:ne], CONTEXTS)
     hr_top = [f for f in tpl.funcs if f['kind'] == 'r'][-1]
@@ -421,6 +405,29 @@ def run(ctx):
 
     end_to_end(ctx, seen)
     ctx.extra['violations_by_rule'] = seen
+
+
+def contexts(ctx, nh, ne, seen, plans, full=None):
+    """a void call in every nesting context (plan = one or two contexts), with symbolic callee, symbolic uses in the helpers"""
+    quick = ctx.tier == 'quick' if full is None else not full
+    for cx, cx2 in plans:
+        tpl = Template(nh, [1, 2, 0][:ne], CONTEXTS)
+        e0 = tpl.entries[0]
+        hv_top = [f for f in tpl.funcs if f['kind'] == 'v'][-1]
+        hv_low = [f for f in tpl.funcs if f['kind'] == 'v'][0]
+        hr_top = [f for f in tpl.funcs if f['kind'] == 'r'][-1]
+        # concrete part: the other entry uses u0 directly; the lowest helpers use something fixed
+        tpl.entries[1]['slots']['use'].value = 'u0'
+        sym = [e0['ctx'][cx], hv_top['slots']['use'], hv_top['slots']['callv'], hv_low['slots']['use']]
+        if cx2:
+            sym.append(e0['ctx'][cx2])
+        if not quick:
+            sym += [hv_top['slots']['callr'], hr_top['slots']['use']]
+        module, info = build(ctx, tpl, sym, [])
+        label = f'global_shader_stages/{cx}{"+" + cx2 if cx2 else ""}'
+        res = ctx.explore(label, lambda it: it.call('global_shader_stages', [mkref(module)]), assume=info['assume'],
+                          anchors=['global_shader_stages', 'update_stages', 'update_stages_blocks', 'naga_stages'])
+        check_stage_map(ctx, label, tpl, info, res, seen)
 
 
 def end_to_end(ctx, seen):
@@ -488,6 +495,90 @@ def sequences(ctx, nh, ne, seen, low_use='u0'):
         res = ctx.explore(label, lambda it: it.call('global_shader_stages', [mkref(module)]), assume=info['assume'],
                           anchors=['global_shader_stages', 'update_stages', 'update_stages_blocks'])
         check_stage_map(ctx, label, tpl, info, res, seen)
+
+
+MU_GLOBALS = [('a', '@group(0) @binding(0) var<uniform> a: vec4<f32>;', 'let t{n} = a.x;'),
+              ('b', '@group(0) @binding(1) var<uniform> b: vec4<f32>;', 'let t{n} = b.y;'),
+              ('c', '@group(0) @binding(2) var<storage, read_write> c: array<u32, 4>;', 'c[{n}] = c[{n}] + 1u;')]
+MU_FUNCS = [('helper', None, 5), ('e0', 1, 3), ('e1', 2, 2)]          # name, stage, number of use sites; e0 calls helper, e1 does not
+
+
+def mu_render(choice=None):
+    """every function holds several textual references to globals (naga: one GlobalVariable expression per reference)"""
+    out = [g[1] for g in MU_GLOBALS]
+    forms = {g[0]: g[2] for g in MU_GLOBALS}
+    n = 0
+    for name, stage, k in MU_FUNCS:
+        body = []
+        for i in range(k):
+            g = (choice or {}).get((name, i), 'a')
+            body.append(forms[g].replace('{n}', str(n % 4) if g == 'c' else str(n)))
+            n += 1
+        if stage is None:
+            out.append(f'fn {name}() {{ ' + ' '.join(body) + ' }')
+        else:
+            attr = STAGE_ATTR[stage][0]
+            out.append(f'{attr} fn {name}() {{ ' + ' '.join(body) + (' helper();' if name == 'e0' else '') + ' }')
+    return '\n'.join(out) + '\n'
+
+
+def multi_use(ctx, seen):
+    """functions that reference globals SEVERAL times, in any order and multiplicity (counting references is not counting globals)"""
+    S, c = ctx.S, ctx.S.conv
+    quick = ctx.tier == 'quick'
+    for sym_fn in (['helper'] if quick else ['helper', 'e0', 'e1']):
+        src = mu_render()
+        d = S.dump(src)
+        mj = d['module']
+        gl_h = {g['name']: i for i, g in enumerate(mj['global_variables'])}
+        module = c.module(d)
+        funcs = {f['name']: fv for f, fv in zip(mj['functions'], c.get(module, 'functions').fields[0].items)}
+        for e, ev in zip(mj['entry_points'], c.get(module, 'entry_points').items):
+            funcs[e['name']] = c.get(ev, 'function')
+        terms, assume = {}, []
+        for name, stage, k in MU_FUNCS:
+            refs = [e for e in c.get(funcs[name], 'expressions').fields[0].items if e.variant == 'GlobalVariable']
+            if len(refs) != k:
+                raise Inconclusive(f'multi-use template: {len(refs)} GlobalVariable expressions in {name}, expected {k}')
+            for i, e in enumerate(refs):
+                if name == sym_fn:
+                    t = z3.BitVec(f'ref_{name}_{i}', 32)
+                    e.fields[0] = t
+                    terms[(name, i)] = t
+                    assume.append(z3.Or([t == h for h in gl_h.values()]))
+        label = f'global_shader_stages/multi-use-{sym_fn}'
+        res = ctx.explore(label, lambda it: it.call('global_shader_stages', [mkref(module)]), assume=assume,
+                          anchors=['global_shader_stages', 'update_stages'])
+
+        def uses(name, g):
+            k = dict((n_, k_) for n_, _, k_ in MU_FUNCS)[name]
+            return z3.Or([(terms[(name, i)] == gl_h[g]) if (name, i) in terms else z3.BoolVal(g == 'a') for i in range(k)])
+        want = {}
+        for g in gl_h:
+            w0 = z3.If(z3.Or(uses('e0', g), uses('helper', g)), z3.BitVecVal(STAGE_BIT[1], 32), z3.BitVecVal(0, 32))
+            w1 = z3.If(uses('e1', g), z3.BitVecVal(STAGE_BIT[2], 32), z3.BitVecVal(0, 32))
+            want[g] = w0 | w1
+        for pc, kind, out, _ in res:
+            if kind == 'panic':
+                raise Inconclusive(f'multi-use harness: stage walk panicked: {out}')
+            got = {k: flag_bits(v) for k, v in out.entries}
+            bad = [(g, got.get(g, 0) != want[g]) for g in gl_h]
+            m = ctx.check(pc, z3.Or([b for _, b in bad]))
+            if m is None:
+                continue
+            key = 'C03/stage-set/multi-use'
+            seen[key] = seen.get(key, 0) + 1
+            if seen[key] > 1:
+                continue
+            inv = {v: k for k, v in gl_h.items()}
+            choice = {k: inv[model_value(m, t)] for k, t in terms.items()}
+            wsrc = mu_render(choice)
+            vis = real_visibility(ctx, wsrc)
+            exp = {g: model_value(m, want[g]) for g in gl_h}
+            rep = {g: vis.get(g) for g in gl_h} != exp
+            ctx.report(key, f'stage sets {vis} differ from static use {exp} when {sym_fn} references {[choice[(sym_fn, i)] for i in range(len(choice))]}',
+                       {'wgsl': wsrc, 'options': OPTS}, rep, {'real': vis, 'expected': exp})
+        ctx.vacuity_witness('multi-use stage map reachable', res[0][0])
 
 
 def replay_mask(ctx, b):
